@@ -1,6 +1,6 @@
 SPECIFICATION Spec
 CONSTANTS
-  Prog <- P_SRC
+  Prog <- P_SRCT
   Procs = {1,2,3}
   Fixed = FALSE
   EnableFirst = TRUE
